@@ -1,6 +1,10 @@
 (* C14 — property theorems (statements only; proofs live in Proofs.v / GenEq.v). *)
-From Coq Require Import ZArith QArith Bool.
-Require Import QV.common.Ctl QV.C14.Gen_numeric QV.C14.Model QV.C14.GenEq QV.C14.Proofs.
+From Coq Require Import ZArith QArith Bool Reals Qreals.
+From Flocq Require Import Core.
+Require Import QV.common.Ctl QV.C14.Gen_numeric QV.C14.Gen_rational QV.C14.Model QV.C14.GenEq QV.C14.Proofs.
+Require Import QV.C14.GenEqRat QV.C14.ProofsRat QV.C14.HashModel QV.C14.ProofsHash QV.C14.Dispatch QV.C14.ProofsDispatch.
+Require Import QV.C14.Float64 QV.C14.ProofsFloat.
+Local Open Scope Q_scope.
 
 (* (1) the kernel re-translated from /repo on every run computes the clean model, for every fuel and input *)
 Theorem C14_translated_kernel_is_model : forall fuel alpha_num d_num den,
@@ -51,3 +55,106 @@ Proof.
   intros a b Hb. split; [apply divmod_identity; intro E; rewrite E in Hb; discriminate | apply mod_range; exact Hb].
 Qed.
 Print Assumptions C14_floordiv_mod.
+
+(* ---------------------------------------------------------------------------------------------------------------- *)
+(* round 3 *)
+
+(* (5) approximate_rational itself, re-translated from /repo on every run (translate/py2gallina_c14.py: divmod, lcm, the
+       numerator/denominator reads, the `alpha_num < d_num` branch, the call of the translated kernel, p + n*q):
+       it computes the hand model for every fuel, ... *)
+Theorem C14_translated_rational_is_model : forall fuel xp xq dp dq, xq <> 0%Z -> dq <> 0%Z ->
+  out_of (gen_approximate_rational fuel xp xq dp dq) = approximate_rational_n fuel xp xq dp dq.
+Proof. exact gen_approximate_rational_eq. Qed.
+Print Assumptions C14_translated_rational_is_model.
+
+(* ... and with fuel lcm(xq, dq) the nat-fuel model is the binary-fuel model of theorem (3) *)
+Theorem C14_rational_models_agree : forall xp xq dp dq,
+  approximate_rational_n (Z.to_nat (Z.lcm xq dq)) xp xq dp dq =
+  match approximate_rational xp xq dp dq with
+  | ORet (p, q) => if (xq =? 1)%Z then ORet (p, xq) else ORet (p, q)
+  | o => o
+  end.
+Proof. exact approximate_rational_n_full_fuel. Qed.
+Print Assumptions C14_rational_models_agree.
+
+(* (6) the translated approximate_rational returns, within lcm(xq, dq) iterations, the fraction of smallest denominator
+       strictly inside (x - e, x + e): theorem (3) about translated code *)
+Theorem C14_translated_rational_minimal : forall (xp : Z) (xq : positive) (dp : Z) (dq : positive), (0 < dp)%Z ->
+  exists (p : Z) (q : positive),
+    out_of (gen_approximate_rational (Z.to_nat (Z.lcm (Zpos xq) (Zpos dq))) xp (Zpos xq) dp (Zpos dq)) = ORet (p, Zpos q) /\
+    in_open (xp # xq) (dp # dq) (p # q) /\
+    forall (p' : Z) (q' : positive), in_open (xp # xq) (dp # dq) (p' # q') -> (q <= q')%positive.
+Proof. exact gen_rational_best. Qed.
+Print Assumptions C14_translated_rational_minimal.
+
+(* whatever fuel: never an error for a positive tolerance; a returned fraction is the best one *)
+Theorem C14_translated_rational_any_fuel : forall fuel (xp : Z) (xq : positive) (dp : Z) (dq : positive), (0 < dp)%Z ->
+  match out_of (gen_approximate_rational fuel xp (Zpos xq) dp (Zpos dq)) with
+  | ORet (p, q) => exists q', q = Zpos q' /\ in_open (xp # xq) (dp # dq) (p # q') /\
+                              forall (p' : Z) (q'' : positive), in_open (xp # xq) (dp # dq) (p' # q'') -> (q' <= q'')%positive
+  | OFail => False
+  | OFuel => True
+  end.
+Proof. exact gen_rational_any_fuel. Qed.
+Print Assumptions C14_translated_rational_any_fuel.
+
+Theorem C14_translated_rational_rejects : forall fuel xp xq dp dq, (dp <= 0)%Z -> (0 < dq)%Z ->
+  out_of (gen_approximate_rational fuel xp xq dp dq) = OFail.
+Proof. exact gen_rational_rejects. Qed.
+Print Assumptions C14_translated_rational_rejects.
+
+(* (7) Python's numeric hash (modulus 2^61 - 1).  pow(d, -1, P) of the model is a correct and complete inverse: *)
+Theorem C14_modinv_spec : forall d,
+  match modinv d with
+  | Some i => (0 <= i < P61)%Z /\ ((d * i) mod P61 = 1)%Z /\ Z.gcd P61 d = 1%Z
+  | None => Z.gcd P61 d <> 1%Z
+  end.
+Proof. exact modinv_spec. Qed.
+Print Assumptions C14_modinv_spec.
+
+(* the hash depends only on the rational value ... *)
+Theorem C14_hash_respects_eq : forall a b : Q, a == b -> pyhash_Q a = pyhash_Q b.
+Proof. exact pyhash_Q_respects_eq. Qed.
+Print Assumptions C14_hash_respects_eq.
+
+(* ... also when the formula p * q^-1 mod P is applied to a representation that is not reduced (invertible denominator) *)
+Theorem C14_hash_representation_independent : forall n (d : positive), Z.gcd P61 (Zpos d) = 1%Z ->
+  hash_frac n (Zpos d) = pyhash_Q (n # d).
+Proof. exact hash_frac_unreduced. Qed.
+Print Assumptions C14_hash_representation_independent.
+
+(* an integer-valued time hashes like the int, a time that is a double m*2^e like the float *)
+Theorem C14_hash_int : forall (t : Q) (z : Z), t == inject_Z z -> pyhash_Q t = pyhash_int z.
+Proof. exact hash_time_eq_int. Qed.
+Print Assumptions C14_hash_int.
+
+Theorem C14_hash_float : forall (t : Q) (m e : Z), t == dyadic m e -> pyhash_Q t = pyhash_float m e.
+Proof. exact hash_time_eq_float. Qed.
+Print Assumptions C14_hash_float.
+
+(* (8) operand dispatch: every operand the property speaks about counts with its documented value *)
+Theorem C14_dispatch_documented : forall v q, documented_value v = Some q -> ctor_passes v = true ->
+  exists q', dispatch v = CvVal q' /\ q' == q.
+Proof. exact dispatch_documented. Qed.
+Print Assumptions C14_dispatch_documented.
+
+Theorem C14_dispatch_symmetric : forall t v,
+  match wrapped_binop Add t v false, wrapped_binop Add t v true with BVal a, BVal b => a == b | x, y => x = y end /\
+  match wrapped_binop Mul t v false, wrapped_binop Mul t v true with BVal a, BVal b => a == b | x, y => x = y end.
+Proof. exact wrapped_add_mul_symmetric. Qed.
+Print Assumptions C14_dispatch_symmetric.
+
+(* (9) float(TimeType.from_float(x)) == x in binary64 (Flocq), from the two CPython facts as explicit hypotheses:
+       repr(x) rounds back to x; int / int is correctly rounded *)
+Theorem C14_float_roundtrip : forall (m e : Z) (dec : Q),
+  RN64 (Q2R dec) = F2R (Float radix2 m e) ->
+  forall pydiv : Z -> Z -> R, (forall n d, (0 < d)%Z -> pydiv n d = RN64 (IZR n / IZR d)%R) ->
+  forall (num : Z) (den : positive), (num # den == dec)%Q -> pydiv num (Zpos den) = F2R (Float radix2 m e).
+Proof. exact float_of_from_float. Qed.
+Print Assumptions C14_float_roundtrip.
+
+(* exact mode: a binary64 number is a fixed point of the rounding *)
+Theorem C14_float_exact_fixed : forall m e : Z, (Z.abs m < 2 ^ 53)%Z -> (-1074 <= e)%Z ->
+  RN64 (F2R (Float radix2 m e)) = F2R (Float radix2 m e).
+Proof. exact RN64_exact. Qed.
+Print Assumptions C14_float_exact_fixed.
